@@ -17,7 +17,7 @@ type legacyHandler struct {
 	eventMgr event.Manager
 
 	rwMutex
-	prevResourceResponse bool
+	prevResourceResponse *bool // nil until the client has accepted or declined a prompt
 	outstandingPacks     *deque.Deque[*Info]
 	pendingPack          *Info
 	appliedPack          *Info
@@ -79,19 +79,19 @@ func (h *legacyHandler) QueueResourcePack(info *Info) error {
 	defer h.Unlock()
 	h.outstandingPacks.PushBack(info)
 	if h.outstandingPacks.Len() == 1 {
-		return h.tickResourcePackQueue()
+		return h.tickResourcePackQueueLocked()
 	}
 	return nil
 }
 
 // with comments form java code
-func (h *legacyHandler) tickResourcePackQueue() error {
-	h.Lock()
-	defer h.Unlock()
+//
+// The caller must hold h.Lock().
+func (h *legacyHandler) tickResourcePackQueueLocked() error {
 	queued, ok := h.outstandingPacks.Front()
 	if ok {
 		// Check if the player declined a resource pack once already
-		if !h.prevResourceResponse {
+		if h.prevResourceResponse != nil && !*h.prevResourceResponse {
 			// If that happened we can flush the queue right away.
 			// Unless its 1.17+ and forced it will come back denied anyway
 			for h.outstandingPacks.Len() > 0 {
@@ -104,7 +104,8 @@ func (h *legacyHandler) tickResourcePackQueue() error {
 					Hash:   queued.Hash,
 					Status: DeclinedResponseStatus,
 				}
-				_, err := h.OnResourcePackResponse(resBundle)
+				// the queue is being ticked already: do not tick again for this response
+				_, err := h.onResourcePackResponseLocked(resBundle, h.shouldDisconnectForForcePack, false)
 				if err != nil {
 					return err
 				}
@@ -132,16 +133,28 @@ func (h *legacyHandler) onResourcePackResponse(
 ) (bool, error) {
 	h.Lock()
 	defer h.Unlock()
+	return h.onResourcePackResponseLocked(bundle, shouldDisconnectForForcePack, true)
+}
 
+// The caller must hold h.Lock().
+func (h *legacyHandler) onResourcePackResponseLocked(
+	bundle *ResponseBundle,
+	shouldDisconnectForForcePack func(e *PlayerResourcePackStatusEvent) bool,
+	tick bool,
+) (bool, error) {
 	peek := bundle.Status.Intermediate()
-	var queued *Info
+	var queued *Info // nil if the client responds without an outstanding pack
 	if peek {
 		queued, _ = h.outstandingPacks.Front()
 	} else {
-		queued = h.outstandingPacks.PopFront()
+		queued, _ = h.outstandingPacks.TryPopFront()
 	}
 
-	e := newPlayerResourcePackStatusEvent(h.player, bundle.Status, bundle.ID, *queued)
+	var packInfo Info
+	if queued != nil {
+		packInfo = *queued
+	}
+	e := newPlayerResourcePackStatusEvent(h.player, bundle.Status, bundle.ID, packInfo)
 	event.FireParallel(h.eventMgr, e, func(e *PlayerResourcePackStatusEvent) {
 		if shouldDisconnectForForcePack(e) {
 			h.player.Disconnect(&component.Translation{
@@ -152,10 +165,12 @@ func (h *legacyHandler) onResourcePackResponse(
 
 	switch bundle.Status {
 	case AcceptedResponseStatus:
-		h.prevResourceResponse = true
+		accepted := true
+		h.prevResourceResponse = &accepted
 		h.pendingPack = queued
 	case DeclinedResponseStatus:
-		h.prevResourceResponse = false
+		declined := false
+		h.prevResourceResponse = &declined
 	case SuccessfulResponseStatus:
 		h.appliedPack = queued
 		h.pendingPack = nil
@@ -170,8 +185,8 @@ func (h *legacyHandler) onResourcePackResponse(
 	}
 
 	var err error
-	if !peek {
-		err = h.tickResourcePackQueue()
+	if !peek && tick {
+		err = h.tickResourcePackQueueLocked()
 	}
 	handled, err2 := h.HandleResponseResult(queued, bundle)
 	return handled, errors.Join(err, err2)
